@@ -419,19 +419,23 @@ def stereoDequant (q sub : Nat) : Int :=
   let step := (tab.getD (q + 1) 0 - low) * 6554 / 65536
   low + step * (2 * (sub : Int) + 1)
 
-/-- Entropy-decoding half of `silk_stereo_decode_pred` (stereo_decode_pred.c:44-50):
+/-- Entropy-decoding half of `silk_stereo_decode_pred` (stereo_decode_pred.c:44-50) for given tables:
     the joint symbol `n` and `ix[0][0]`, `ix[0][1]`, `ix[1][0]`, `ix[1][1]`. -/
-def stereoIx (c : Dec) : (Nat × Nat × Nat × Nat × Nat) × Dec :=
-  match sym c silk_stereo_pred_joint_iCDF with
+def stereoIxG (tj t3 t5 : List Nat) (c : Dec) : (Nat × Nat × Nat × Nat × Nat) × Dec :=
+  match sym c tj with
   | (n, c1) =>
-  match sym c1 silk_uniform3_iCDF with
+  match sym c1 t3 with
   | (a0, c2) =>
-  match sym c2 silk_uniform5_iCDF with
+  match sym c2 t5 with
   | (a1, c3) =>
-  match sym c3 silk_uniform3_iCDF with
+  match sym c3 t3 with
   | (b0, c4) =>
-  match sym c4 silk_uniform5_iCDF with
+  match sym c4 t5 with
   | (b1, c5) => ((n, a0, a1, b0, b1), c5)
+
+/-- … with `silk_stereo_pred_joint_iCDF`, `silk_uniform3_iCDF`, `silk_uniform5_iCDF`. -/
+def stereoIx (c : Dec) : (Nat × Nat × Nat × Nat × Nat) × Dec :=
+  stereoIxG silk_stereo_pred_joint_iCDF silk_uniform3_iCDF silk_uniform5_iCDF c
 
 /-- Dequantising half (stereo_decode_pred.c:45-46, 53-62): `ix[0][2] = n/5`, `ix[1][2] = n - 5*ix[0][2]`. -/
 def stereoMk (n a0 a1 b0 b1 : Nat) : StereoPred :=
@@ -439,10 +443,14 @@ def stereoMk (n a0 a1 b0 b1 : Nat) : StereoPred :=
     pred0 := stereoDequant (a0 + 3 * (n / 5)) a1 - stereoDequant (b0 + 3 * (n - 5 * (n / 5))) b1,
     pred1 := stereoDequant (b0 + 3 * (n - 5 * (n / 5))) b1 }
 
+/-- `silk_stereo_decode_pred` (stereo_decode_pred.c:35-63) for given tables. -/
+def stereoDecodePredG (tj t3 t5 : List Nat) (c : Dec) : StereoPred × Dec :=
+  match stereoIxG tj t3 t5 c with
+  | ((n, a0, a1, b0, b1), c5) => (stereoMk n a0 a1 b0 b1, c5)
+
 /-- `silk_stereo_decode_pred` (stereo_decode_pred.c:35-63). -/
 def stereoDecodePred (c : Dec) : StereoPred × Dec :=
-  match stereoIx c with
-  | ((n, a0, a1, b0, b1), c5) => (stereoMk n a0 a1 b0 b1, c5)
+  stereoDecodePredG silk_stereo_pred_joint_iCDF silk_uniform3_iCDF silk_uniform5_iCDF c
 
 /-- `silk_stereo_decode_mid_only` (stereo_decode_pred.c:66-73). -/
 def stereoDecodeMidOnly (c : Dec) : Nat × Dec := sym c silk_stereo_only_code_mid_iCDF
@@ -549,16 +557,21 @@ structure SkipSt where
   c : Dec
   evs : List Ev
 
-/-- Stereo predictor and mid-only flag in front of the mid channel's LBRR data (dec_API.c:258-263). -/
-def skipStereo (cfg : Cfg) (i n : Nat) (s : SkipSt) : SkipSt :=
+/-- Stereo predictor and mid-only flag in front of the mid channel's LBRR data (dec_API.c:258-263), for given
+    readers `P` (`silk_stereo_decode_pred`) and `M` (`silk_stereo_decode_mid_only`). -/
+def skipStereoG (P : Dec → StereoPred × Dec) (M : Dec → Nat × Dec) (cfg : Cfg) (i n : Nat) (s : SkipSt) : SkipSt :=
   if cfg.nCh = 2 ∧ n = 0 then
-    match stereoDecodePred s.c with
+    match P s.c with
     | (p, c1) =>
       if s.st.ch1.lbrrFlags.getD i 0 = 0 then
-        match stereoDecodeMidOnly c1 with
+        match M c1 with
         | (m, c2) => { s with dom := m, c := c2, evs := s.evs ++ [.pred p, .midOnly m] }
       else { s with c := c1, evs := s.evs ++ [.pred p] }
   else s
+
+/-- Stereo predictor and mid-only flag in front of the mid channel's LBRR data (dec_API.c:258-263). -/
+def skipStereo (cfg : Cfg) (i n : Nat) (s : SkipSt) : SkipSt :=
+  skipStereoG stereoDecodePred stereoDecodeMidOnly cfg i n s
 
 /-- Body of the LBRR-skipping loop for frame `i`, channel `n` (dec_API.c:254-273). -/
 def skipOne (cfg : Cfg) (i n : Nat) (s : SkipSt) : SkipSt :=
@@ -627,16 +640,22 @@ def hasMidOnly (cfg : Cfg) (st : SilkSt) : Bool :=
   decide ((cfg.lostFlag = 0 ∧ st.ch1.vad.getD st.ch0.nFramesDecoded 0 = 0) ∨
           (cfg.lostFlag = 2 ∧ st.ch1.lbrrFlags.getD st.ch0.nFramesDecoded 0 = 0))
 
-/-- Stereo predictor / mid-only flag in front of a frame (dec_API.c:280-298): `(decode_only_middle, ctx, events)`. -/
-def decodeStereoHead (cfg : Cfg) (st : SilkSt) (dom : Nat) (c : Dec) : Nat × Dec × List Ev :=
+/-- Stereo predictor / mid-only flag in front of a frame (dec_API.c:280-298) for given readers `P`, `M`:
+    `(decode_only_middle, ctx, events)`. -/
+def decodeStereoHeadG (P : Dec → StereoPred × Dec) (M : Dec → Nat × Dec) (cfg : Cfg) (st : SilkSt) (dom : Nat)
+    (c : Dec) : Nat × Dec × List Ev :=
   if cfg.nCh = 2 ∧ hasPred cfg st then
-    match stereoDecodePred c with
+    match P c with
     | (p, c1) =>
       if hasMidOnly cfg st then
-        match stereoDecodeMidOnly c1 with
+        match M c1 with
         | (m, c2) => (m, c2, [.pred p, .midOnly m])
       else (0, c1, [.pred p])
   else (dom, c, [])
+
+/-- Stereo predictor / mid-only flag in front of a frame (dec_API.c:280-298): `(decode_only_middle, ctx, events)`. -/
+def decodeStereoHead (cfg : Cfg) (st : SilkSt) (dom : Nat) (c : Dec) : Nat × Dec × List Ev :=
+  decodeStereoHeadG stereoDecodePred stereoDecodeMidOnly cfg st dom c
 
 /-- `condCoding` of dec_API.c:331-343 for channel `n`; `fd0` is `channel_state[0].nFramesDecoded` as the
     C code sees it at that point (already incremented when `n = 1`). -/
@@ -832,42 +851,43 @@ def frameSpans : Nat → List Nat → List (Nat × Nat)
   | _, [] => []
   | off, s :: ss => (off, s) :: frameSpans (off + s) ss
 
+/-- `opus_decode`'s own check before `opus_decode_native` (opus_decoder.c:852-859): skipped for FEC decoding;
+    otherwise `opus_decoder_get_nb_samples` must be positive. -/
+def packetPre (fs : Nat) (decodeFec : Bool) (pkt : Bytes) : Bool :=
+  decodeFec ||
+  (match Framing.getNbSamples pkt fs with
+   | .ok n => decide (n > 0)
+   | _ => false)
+
+/-- Wrap a frame list as "decoded" (as opposed to "concealed"). -/
+def someRes : Res (List FrameRes) → Res (Option (List FrameRes))
+  | .ok l => .ok (some l)
+  | .err e => .err e
+  | .oob => .oob
+  | .abort => .abort
+
+/-- The part of `opus_decode_native` behind the parser (opus_decoder.c:756-811).  `decodeFec = true`: only the
+    first frame is decoded, from its LBRR data, unless the packet or the previous packet (`prevModeCelt`) is
+    CELT-only, in which case everything is concealed (`none`). -/
+def decodeFrames (decodeFec prevModeCelt : Bool) (st : SilkSt) (pkt : Bytes) (p : Framing.Parsed) :
+    Res (Option (List FrameRes)) :=
+  if decodeFec then
+    if Framing.getMode p.toc = 1002 ∨ prevModeCelt then .ok none
+    else someRes (framesLoop p.toc pkt true ((frameSpans p.payloadOffset p.sizes).take 1) st)
+  else someRes (framesLoop p.toc pkt false (frameSpans p.payloadOffset p.sizes) st)
+
 /-- `opus_decode` → `opus_decode_native` for a non-empty packet (opus_decoder.c:852-859, 744-811).
-    `decodeFec = true`: only the first frame is decoded, from its LBRR data, unless the packet or the
-    previous packet (`prevModeCelt`) is CELT-only, in which case everything is concealed (`none`).
     The caller's `frame_size` is assumed to equal the packet's frame duration in the FEC case and to be
     at least the packet duration otherwise. -/
 def decodePacket (fs : Nat) (decodeFec prevModeCelt : Bool) (st : SilkSt) (pkt : Bytes) :
     Res (Option (List FrameRes)) :=
-  let pre : Res Unit :=
-    if decodeFec then .ok ()
-    else match Framing.getNbSamples pkt fs with
-      | .ok n => if n > 0 then .ok () else .err .invalidPacket
-      | _ => .err .invalidPacket
-  match pre with
-  | .ok _ =>
+  if packetPre fs decodeFec pkt then
     match Framing.parseImpl false pkt with
-    | .ok p =>
-      if decodeFec then
-        if Framing.getMode p.toc = 1002 ∨ prevModeCelt then .ok none
-        else
-          match framesLoop p.toc pkt true ((frameSpans p.payloadOffset p.sizes).take 1) st with
-          | .ok l => .ok (some l)
-          | .err e => .err e
-          | .oob => .oob
-          | .abort => .abort
-      else
-        match framesLoop p.toc pkt false (frameSpans p.payloadOffset p.sizes) st with
-        | .ok l => .ok (some l)
-        | .err e => .err e
-        | .oob => .oob
-        | .abort => .abort
+    | .ok p => decodeFrames decodeFec prevModeCelt st pkt p
     | .err e => .err e
     | .oob => .oob
     | .abort => .abort
-  | .err e => .err e
-  | .oob => .oob
-  | .abort => .abort
+  else .err .invalidPacket
 
 /-- The literals used above agree with the regenerated constants of silk/define.h. -/
 def constsOk : Bool :=
